@@ -108,6 +108,7 @@ DISPATCH_BUDGET = {"quick": 640, "thorough": 32000}
 LAYOUT_BUDGET = {"quick": 320, "thorough": 16000}
 # the invariants over the complete cycle (price updates and driver phases included) live in one module
 EXTRA_TARGETS = {p: ["Properties.Full"] for p in ("C02", "C04", "C07", "C08", "C10", "C17")}
+EXTRA_TARGETS["C03"] = ["Properties.C03Divert"]
 NO_DIFFS = r"^\b$"      # matches no disagreement text: only the monitors of the layer are used
 TIMED_REQUEST_DIFFS = r"admitted|cancelled|requests present"
 
@@ -386,7 +387,7 @@ def check_C09(tier: str, seed: int) -> int:
 def check_C03(tier: str, seed: int) -> int:
     return control_check("C03", tier, seed, with_timed=True, with_osm=True, assumptions=[
         "request ids are unique in the input and never reused",
-        "the whole-stream conservation law is enforced by the Lean ledger automaton (Hive.Ledger) on implementation traces; the Lean theorems are the state-level lemmas listed in Properties/C03.lean (partial: no theorem over unbounded event streams yet)"])
+        "the whole-stream conservation law is enforced by the Lean ledger automaton (Hive.Ledger) on implementation traces; the Lean theorems are the run-level ledger theorems over state + event log (run_resolved_once, run_none_vanishes, run_dropoff_by_picker, ...), the state-level lemmas of Properties/C03.lean and, for whole instruction phases, no_divert_phase / divert_monitor_silent (Properties/C03Divert.lean)"])
 
 
 QUEUE_OPTS = {"world": {"queue_scenario": True, "n_veh": [4, 7]}, "hist": {"p_instr": 0.35, "p_req": 0.0, "p_probe": 0.0}}
